@@ -359,6 +359,15 @@ def r12_match_str(text):
             chain += ("if" if first else " else if") + " str_eq(%s, %s) { %s }" % (mm.group(1), pat, expr)
             first = False
         chain += " else { %s }" % default
+        # the literals' contents are revealed so that the tests decide view equality
+        def _chars(lit):   # the literal's characters as a seq! (plain ASCII keys only)
+            body = lit[1:-1]
+            if not re.fullmatch(r"[A-Za-z0-9_ ]*", body):
+                raise Drift("R12: non-alphanumeric literal pattern " + lit)
+            return "seq![%s]" % ", ".join("'%s'" % ch for ch in body)
+        # reveals are scoped to their block: assert the contents so that they stay known
+        reveals = " ".join("reveal_strlit(%s); assert(%s@ =~= %s);" % (pat, pat, _chars(pat)) for pat, _ in arms if pat != "_")
+        chain = "proof { %s }\n" % reveals + chain
         out = out[:mm.start()] + chain + out[cl + 1:]
         n += 1
     return out, n
